@@ -29,12 +29,12 @@ fn matches(pattern: &str, text: &str) -> Result<bool, String> {
         RE_CACHE.with(|c| {
             let mut c = c.borrow_mut();
             if !c.contains_key(pattern) {
-                c.insert(pattern.to_string(), regex::Regex::new(pattern).map_err(|e| e.to_string())?);
+                c.insert(pattern.to_string(), crate::lang::compile_regex(pattern)?);
             }
             Ok(c[pattern].is_match(text))
         })
     } else {
-        Ok(regex::Regex::new(pattern).map_err(|e| e.to_string())?.is_match(text))
+        Ok(crate::lang::compile_regex(pattern)?.is_match(text))
     }
 }
 
